@@ -1,7 +1,10 @@
 """C04 - terminal statuses are final and nothing is scheduled after them."""
 from vt.harness import kernels
-from vt.harness.common import history_body, ob
+from vt.harness.common import control_slices, history_body, ob, position_slices
 from vt.monitors import C04Terminal, OracleTracker
+
+
+OWN_THOROUGH = True
 
 
 def terminal(ch, ctx, did, **kw):
@@ -11,13 +14,20 @@ def terminal(ch, ctx, did, **kw):
 def obligations(tier):
     obs = [kernels.e1("C04", "L4_terminal_final", "L4_terminal_final", timeout=600)]
     defs = ["D02", "D04", "D06", "D07", "D12", "D11s"]
-    steps = 5 if tier == "quick" else 7
+    steps = 5 if tier == "quick" else 6
     for did in defs:
-        obs.append(ob("C04", "e2c.ctl." + did, "vt.harness.C04:terminal",
-                      {"did": did, "steps": steps, "control": "either"}, timeout=900))
+        o = ob("C04", "e2c.ctl." + did, "vt.harness.C04:terminal", {"did": did, "steps": steps, "control": "either"}, timeout=900 if tier == "quick" else 3600)
+        if tier == "quick":
+            obs.append(o)
+        else:
+            o["params"]["crash"] = "one"
+            obs.extend(control_slices(o, steps + 2))
         if did != "D06" or tier != "quick":
-            obs.append(ob("C04", "e2c.req." + did, "vt.harness.C04:terminal",
-                          {"did": did, "steps": steps - 1, "requests": True}, timeout=1200))
+            r = ob("C04", "e2c.req." + did, "vt.harness.C04:terminal", {"did": did, "steps": 4 if tier == "quick" else 5, "requests": True}, timeout=1200 if tier == "quick" else 5400)
+            if tier == "quick":
+                obs.append(r)
+            else:
+                obs.extend(position_slices(r, "req_at", 7))
     for did in ("D07", "D07w"):
         o = ob("C04", "e2c.lazy." + did, "vt.harness.C04:terminal", {"did": did, "steps": steps, "lazy_start": 2}, timeout=900)
         o["antecedents"] = ["c04_after_terminal"]
